@@ -61,9 +61,11 @@ Expected(req, cfg) ==
                   res == ToResolved(lr)
                   an == { ToWire(cfg, res.rrs[i]) : i \in DOMAIN res.rrs }
                   au == IF res.soa = NoRR THEN {} ELSE { ToWire(cfg, res.soa) }
-              IN \* mode "fwd-dead": a forwarding resolver whose forwarder only ever answers SERVFAIL - whatever local
-                 \* data does not answer by itself is a failure, so the reply is again a function of the configuration
-                 IF cfg.mode = "fwd-dead" /\ lr.kind # "done" THEN servfail
+              IN \* mode "fwd-empty": a forwarding resolver whose forwarder answers every question with an empty
+                 \* NOERROR reply - what local data contributes (a complete answer, the local part of an ANY answer, an
+                 \* alias chain leaving local data) is the whole reply, everything else is empty and hence SERVFAIL:
+                 \* the reply is again a function of the configuration alone
+                 IF cfg.mode = "fwd-empty" /\ lr.kind \in {"delegation", "err"} THEN servfail
                  ELSE IF res.kind = "Err" \/ (an = {} /\ au = {} /\ res.kind # "NameError") THEN servfail
                  ELSE Rep(Hdr(m.id, 0, res.kind \in {"Authoritative", "NameError"}, FALSE, m.rd, ra,
                               IF res.kind = "NameError" THEN 3 ELSE 0),
